@@ -1,56 +1,149 @@
 (* C12 - interceptors change only what they change and can veto a call.
    Statements only: each theorem is closed by [exact] of a lemma proved in Proofs/Interceptor.v.
-   Every statement quantifies over the interceptor FUNCTION, the inner service, the abstract
-   extension / body / inner-response types and the whole request. *)
-From Verif Require Import Lib.Bytes Lib.Base64 Lib.Percent Lib.Utf8 Lib.HeaderMap.
+   Every statement quantifies over the interceptor (a function of its own state: FnMut), the
+   inner service / its futures / its response bodies (interfaces over abstract states), the
+   abstract extension and request-body types and the whole request.  The functions named here
+   (intercepted_service = intercepted_poll_ready + intercepted_call, svc_run, rf_run = iterated
+   rf_poll, body_run over rb_impl, status_into_http) are the ones obs_seq / obs_cap evaluate on
+   every harness case. *)
+From Verif Require Import Lib.Bytes Lib.Obs Lib.Base64 Lib.Percent Lib.Utf8 Lib.HeaderMap.
 From Verif Require Import Gen.StatusTables Model.Status Proofs.Status Model.Metadata Proofs.Metadata.
 From Verif Require Import Model.Interceptor Proofs.Interceptor.
 Open Scope N_scope.
 
-(* accept: inner is called exactly once with the interceptor's metadata (unsanitised) and
-   extensions and the original method, uri, version and body; its answer is passed on *)
+(* accept: the inner call is made with the interceptor's metadata (unsanitised) and extensions
+   and the original method, uri, version and body; the future handed back is the inner one *)
 Theorem c12_accept_preserves :
-  forall (E B Err P RB : Type) (f : interceptor E) (inner : http_request E B -> Err + (P * RB)) (req : http_request E B) r',
-  f (mkReq (from_headers (rq_headers req)) (rq_ext req) tt) = inl r' ->
-  intercepted_call f inner req =
+  forall (IS SS E B Err Fut : Type) (f : interceptor IS E) (inner : svc_impl SS (http_request E B) Err Fut) is ss req r' is',
+  f is (mkReq (from_headers (rq_headers req)) (rq_ext req) tt) = (inl r', is') ->
+  intercepted_call f inner (is, ss) req =
     let req' := mkHttpReq (rq_method req) (rq_uri req) (rq_version req)
                           (into_headers (tr_md r')) (tr_ext r') (rq_body req) in
-    ([req'], Val (wrap_inner (inner req'))).
+    (KFuture (fst (sv_call inner ss req')), (is', snd (sv_call inner ss req'))).
 Proof. exact @accept_preserves. Qed.
 
 (* every header name - reserved ones included - reaches the inner service with exactly the
    interceptor's values *)
 Theorem c12_accept_headers_unsanitised :
-  forall (E B Err P RB : Type) (f : interceptor E) (inner : http_request E B -> Err + (P * RB)) (req : http_request E B) r',
-  f (mkReq (from_headers (rq_headers req)) (rq_ext req) tt) = inl r' ->
-  exists req', fst (intercepted_call f inner req) = [req'] /\
+  forall (IS SS E B Err Fut : Type) (f : interceptor IS E) (inner : svc_impl SS (http_request E B) Err Fut) is ss req r' is',
+  f is (mkReq (from_headers (rq_headers req)) (rq_ext req) tt) = (inl r', is') ->
+  exists req',
+    intercepted_call f inner (is, ss) req =
+      (KFuture (fst (sv_call inner ss req')), (is', snd (sv_call inner ss req'))) /\
     forall k, hm_get_all (rq_headers req') k = hm_get_all (tr_md r') k.
 Proof. exact @accept_headers_unsanitised. Qed.
 
 (* whatever the interceptor did not change arrives unchanged *)
 Theorem c12_accept_untouched :
-  forall (E B Err P RB : Type) (f : interceptor E) (inner : http_request E B -> Err + (P * RB)) (req : http_request E B) r' k,
-  f (mkReq (from_headers (rq_headers req)) (rq_ext req) tt) = inl r' ->
+  forall (IS SS E B Err Fut : Type) (f : interceptor IS E) (inner : svc_impl SS (http_request E B) Err Fut) is ss req r' is' k,
+  f is (mkReq (from_headers (rq_headers req)) (rq_ext req) tt) = (inl r', is') ->
   hm_get_all (tr_md r') k = hm_get_all (rq_headers req) k ->
-  exists req', fst (intercepted_call f inner req) = [req'] /\
+  exists req',
+    intercepted_call f inner (is, ss) req =
+      (KFuture (fst (sv_call inner ss req')), (is', snd (sv_call inner ss req'))) /\
     hm_get_all (rq_headers req') k = hm_get_all (rq_headers req) k /\
     rq_method req' = rq_method req /\ rq_uri req' = rq_uri req /\ rq_version req' = rq_version req /\
-    rq_body req' = rq_body req.
+    rq_body req' = rq_body req /\ rq_ext req' = tr_ext r'.
 Proof. exact @accept_untouched. Qed.
 
+(* the identity interceptor: the inner service gets the very request *)
 Theorem c12_accept_identity :
-  forall (E B Err P RB : Type) (inner : http_request E B -> Err + (P * RB)) (req : http_request E B),
-  intercepted_call (fun r => inl r) inner req = ([req], Val (wrap_inner (inner req))).
+  forall (IS SS E B Err Fut : Type) (inner : svc_impl SS (http_request E B) Err Fut) (is : IS) ss req,
+  intercepted_call (fun i r => (inl r, i)) inner (is, ss) req =
+    (KFuture (fst (sv_call inner ss req)), (is, snd (sv_call inner ss req))).
 Proof. exact @accept_identity. Qed.
 
-(* reject: inner is never invoked (empty call list), no panic, HTTP 200 with the headers of
-   Status::add_header of precisely that status onto {content-type: application/grpc} *)
-Theorem c12_reject_vetoes :
-  forall (E B Err P RB : Type) (f : interceptor E) (inner : http_request E B -> Err + (P * RB)) (req : http_request E B) st,
-  f (mkReq (from_headers (rq_headers req)) (rq_ext req) tt) = inr st ->
+(* "change only what they change" for the typed MetadataMap API: an accepting interceptor that
+   mutates the incoming metadata by insert / append / remove (ASCII or binary, valid or not)
+   leaves every header NAME that none of its mutations is aimed at - reserved names included -
+   exactly as the caller sent it, with the original method, uri, version, body and (unless
+   replaced) extensions *)
+Theorem c12_scripted_changes_only_named :
+  forall (SS Err Fut : Type) (inner : svc_impl SS hreq Err Fut) (a : action ext_t) n ss req k,
+  a_reject a = None -> a_fresh a = false ->
+  Forall (fun op => ~ op_names op k) (a_ops a) ->
+  exists req',
+    intercepted_call (interceptor_of [a]) inner (n, ss) req =
+      (KFuture (fst (sv_call inner ss req')), (n + 1, snd (sv_call inner ss req'))) /\
+    hm_get_all (rq_headers req') k = hm_get_all (rq_headers req) k /\
+    rq_method req' = rq_method req /\ rq_uri req' = rq_uri req /\ rq_version req' = rq_version req /\
+    rq_body req' = rq_body req /\
+    rq_ext req' = match a_ext a with Some e => e | None => rq_ext req end.
+Proof. exact @scripted_changes_only_named. Qed.
+
+(* reject: the inner service is not touched (its state is the one it had); the future is the
+   Status kind holding precisely that status *)
+Theorem c12_reject_never_calls :
+  forall (IS SS E B Err Fut : Type) (f : interceptor IS E) (inner : svc_impl SS (http_request E B) Err Fut) is ss req st is',
+  f is (mkReq (from_headers (rq_headers req)) (rq_ext req) tt) = (inr st, is') ->
+  intercepted_call f inner (is, ss) req = (KStatus (Some st), (is', ss)).
+Proof. exact @reject_never_calls. Qed.
+
+(* ANY sequence of poll_ready / call on the wrapped service, stateful interceptor, stateful inner
+   service: the inner service is used exactly as the interceptor's verdicts say (poll_ready passed
+   on one for one, accepted calls with the rebuilt request, rejected calls absent) and the
+   caller's results are the inner service's *)
+Theorem c12_service_trace :
+  forall (IS SS E B Err Fut : Type) (f : interceptor IS E) (inner : svc_impl SS (http_request E B) Err Fut) ops, forall is ss,
+  svc_run (intercepted_service f inner) (is, ss) ops =
+    (outer_results (fst (verdicts f is ops)) (fst (svc_run inner ss (inner_ops (fst (verdicts f is ops))))),
+     (snd (verdicts f is ops), snd (svc_run inner ss (inner_ops (fst (verdicts f is ops)))))).
+Proof. exact @service_trace. Qed.
+
+(* the same for the recording service of the harness: its log is the verdicts *)
+Theorem c12_recorder_sees :
+  forall (IS : Type) (f : interceptor IS ext_t) pend ans ops is script,
+  snd (snd (snd (svc_run (intercepted_service f (rec_svc pend ans)) (is, (script, [])) ops))) =
+    map entry_of (inner_ops (fst (verdicts f is ops))).
+Proof. exact @recorder_sees. Qed.
+
+(* an accepted call's future is the inner future poll for poll; no poll of it panics *)
+Theorem c12_future_transparent :
+  forall (Fut Err P RB : Type) (fp : fut_impl Fut (Err + (P * RB))) n, forall f,
+  rf_run fp (KFuture f) n = map (fun r => Val (poll_map wrap_inner r)) (fut_run fp f n).
+Proof. exact @future_transparent. Qed.
+
+(* an accepted call's body is the inner body for every use (poll_frame, is_end_stream, size_hint)
+   in every order *)
+Theorem c12_body_wrap_transparent :
+  forall (RB F Er : Type) (bi : body_impl RB F Er) ops, forall b,
+  body_run (rb_impl bi) (RbWrap b) ops = body_run bi b ops.
+Proof. exact @body_wrap_transparent. Qed.
+
+(* a rejected call's body: None / end of stream / exactly 0 bytes, at every point, for ever *)
+Theorem c12_body_empty_inert :
+  forall (RB F Er : Type) (bi : body_impl RB F Er) ops,
+  body_run (rb_impl bi) RbEmpty ops = map empty_answer ops.
+Proof. exact @body_empty_inert. Qed.
+
+(* exactly when Status::into_http panics for a well-formed status: iff the header map would hold
+   more than 24576 names *)
+Theorem c12_status_into_http_exact :
+  forall st,
   well_formed st ->
+  exists h, add_header st ct_only = Some h /\
+    status_into_http st = if HEADER_MAP_MAX_NAMES <? names_count h then Panic else Val h.
+Proof. exact @status_into_http_exact. Qed.
+
+(* ... in which case every poll of the rejected call's future panics (explicit outcome) *)
+Theorem c12_reject_future_over_capacity :
+  forall (Fut Err P RB : Type) (fp : fut_impl Fut (Err + (P * RB))) st n,
+  status_into_http st = Panic ->
+  rf_run fp (KStatus (Some st)) n = repeat (@Panic (poll (Err + http_response P RB))) n.
+Proof. exact @reject_future_over_capacity. Qed.
+
+(* reject, end to end.  Premises: the status is well formed (always true of a tonic::Status) and
+   its metadata has at most 24572 entries (bound of http::HeaderMap, written here).  The inner
+   service is never invoked, the first poll is Ready - no panic - with HTTP 200, the Empty body
+   and the complete header map stated name by name; a later poll of the spent future panics *)
+Theorem c12_reject_vetoes :
+  forall (IS SS E B Err Fut P RB : Type) (f : interceptor IS E) (inner : svc_impl SS (http_request E B) Err Fut) (fp : fut_impl Fut (Err + (P * RB))) is ss req st is',
+  f is (mkReq (from_headers (rq_headers req)) (rq_ext req) tt) = (inr st, is') ->
+  well_formed st -> N.of_nat (length (st_md st)) + 4 <= HEADER_MAP_MAX_NAMES ->
   exists h cv,
-    intercepted_call f inner req = ([], Val (inr (HStatus HTTP_200 HTTP_11 h, RbEmpty))) /\
+    intercepted_call f inner (is, ss) req = (KStatus (Some st), (is', ss)) /\
+    (forall n, rf_run fp (KStatus (Some st)) (S n) =
+               Val (PReady (inr (HStatus HTTP_200 HTTP_11 h, RbEmpty))) :: repeat Panic n) /\
     add_header st ct_only = Some h /\ code_to_hv (st_code st) = Some cv /\
     hm_get_all h hdr_content_type = [val_app_grpc] /\
     hm_get_all h hdr_grpc_status = [cv] /\
@@ -65,37 +158,28 @@ Theorem c12_reject_vetoes :
            end.
 Proof. exact @reject_vetoes. Qed.
 
-(* the caller reading those headers recovers precisely that status.  Premises: the status is
-   well formed, its message is UTF-8 (always, for a Rust String) and its metadata has no user
-   entry under the unreserved protocol name grpc-status-details-bin.  The recovered metadata is
-   the status metadata minus the six reserved names plus the content-type tonic wrote. *)
+(* the caller reading those headers recovers precisely that status.  Further premises: the
+   message is UTF-8 (always, for a Rust String) and the status metadata has no user entry under
+   the unreserved protocol name grpc-status-details-bin.  The recovered metadata is the status
+   metadata minus the six reserved names plus the content-type tonic wrote *)
 Theorem c12_reject_status_recovered :
-  forall (E B Err P RB : Type) (f : interceptor E) (inner : http_request E B -> Err + (P * RB)) (req : http_request E B) st,
-  f (mkReq (from_headers (rq_headers req)) (rq_ext req) tt) = inr st ->
-  well_formed st -> utf8_valid (st_msg st) = true ->
+  forall (IS SS E B Err Fut P RB : Type) (f : interceptor IS E) (inner : svc_impl SS (http_request E B) Err Fut) (fp : fut_impl Fut (Err + (P * RB))) is ss req st is',
+  f is (mkReq (from_headers (rq_headers req)) (rq_ext req) tt) = (inr st, is') ->
+  well_formed st -> N.of_nat (length (st_md st)) + 4 <= HEADER_MAP_MAX_NAMES ->
+  utf8_valid (st_msg st) = true ->
   hm_get_all (st_md st) hdr_grpc_status_details = [] ->
   exists h st',
-    intercepted_call f inner req = ([], Val (inr (HStatus HTTP_200 HTTP_11 h, RbEmpty))) /\
+    intercepted_call f inner (is, ss) req = (KStatus (Some st), (is', ss)) /\
+    rf_run fp (KStatus (Some st)) 1 = [Val (PReady (inr (HStatus HTTP_200 HTTP_11 h, RbEmpty)))] /\
     from_header_map h = Some st' /\
     st_code st' = st_code st /\ st_msg st' = st_msg st /\ st_details st' = st_details st /\
     forall k, hm_get_all (st_md st') k =
       if bytes_eqb hdr_content_type k then [val_app_grpc] else hm_get_all (sanitize (st_md st)) k.
 Proof. exact @reject_status_recovered. Qed.
 
-(* the response body of a rejected call is ResponseBody::Empty: polling it yields no frame, it
-   reports end of stream and an exact size of 0; an accepted call's body is the inner one *)
-Theorem c12_reject_body_empty : forall (RB F : Type) (fr : RB -> list F) (en : RB -> bool) (sz : RB -> option N),
-  rb_frames fr (@RbEmpty RB) = [] /\ rb_is_end_stream en (@RbEmpty RB) = true /\
-  rb_size_exact sz (@RbEmpty RB) = Some 0.
-Proof. exact @reject_body_empty. Qed.
-
-Theorem c12_accept_body_wrapped : forall (RB F : Type) (fr : RB -> list F) (en : RB -> bool) (sz : RB -> option N) b,
-  rb_frames fr (RbWrap b) = fr b /\ rb_is_end_stream en (RbWrap b) = en b /\
-  rb_size_exact sz (RbWrap b) = sz b.
-Proof. exact @accept_body_wrapped. Qed.
-
 (* Status -> headers -> Status on top of any header map without status headers *)
-Theorem c12_status_roundtrip_on : forall st m0,
+Theorem c12_status_roundtrip_on :
+  forall st m0,
   well_formed st -> utf8_valid (st_msg st) = true ->
   hm_get_all (st_md st) hdr_grpc_status_details = [] ->
   hm_get_all m0 hdr_grpc_message = [] -> hm_get_all m0 hdr_grpc_status_details = [] ->
@@ -106,39 +190,53 @@ Theorem c12_status_roundtrip_on : forall st m0,
       if bytes_eqb k hdr_grpc_status || bytes_eqb k hdr_grpc_message || bytes_eqb k hdr_grpc_status_details
       then []
       else match hm_get_all (sanitize (st_md st)) k with [] => hm_get_all m0 k | l => l end.
-Proof. exact status_roundtrip_on. Qed.
+Proof. exact @status_roundtrip_on. Qed.
 
-(* ---- non-vacuity: a request with reserved, repeated and binary headers; an interceptor that
-   inserts a header and replaces the extensions; one that rejects ---- *)
-
+(* ---- non-vacuity: a request with reserved, repeated and binary headers; an interceptor with a
+   call counter whose first call inserts a header and replaces the extensions and whose second
+   call rejects; a poll_ready before and after (ex_req, ex_status, ex_acts: Proofs/Interceptor.v) ---- *)
 Example c12_example_accept :
-  let ex_req : http_request ext_t (list N) :=
-  mkHttpReq [80; 79; 83; 84] [47; 115; 47; 109] 20
-    [ ([116; 101], [116; 114; 97; 105; 108; 101; 114; 115]); ([120; 45; 97], [49]);
-      ([120; 45; 112; 45; 98; 105; 110], [65; 80; 56; 72]); ([120; 45; 97], [50]);
-      ([99; 111; 110; 116; 101; 110; 116; 45; 116; 121; 112; 101], [120]) ]
-    (Some 7, None) [1; 2; 3] in
-  let a := mkAction false [(0, ([120; 45; 97], [57])); (1, ([116; 101], [122]))] (Some (None, Some [116])) None in
-  exists req', intercepted_call (interceptor_of a) (fun _ => @inr unit _ (0, 1)) ex_req = ([req'], Val (inr (HInner 0, RbWrap 1))) /\
+  exists fut req', intercepted_call (interceptor_of ex_acts) (rec_svc 2 (inl [101])) (0, ([], [])) ex_req
+                   = (KFuture fut, (1, ([], [LCall req']))) /\
     hm_get_all (rq_headers req') [120; 45; 97] = [[57]] /\
     hm_get_all (rq_headers req') [116; 101] = [[116; 114; 97; 105; 108; 101; 114; 115]; [122]] /\
     hm_get_all (rq_headers req') hdr_content_type = [[120]] /\
-    rq_ext req' = (None, Some [116]) /\ rq_body req' = [1; 2; 3] /\ rq_version req' = 20.
-Proof. eexists. vm_compute. repeat split; reflexivity. Qed.
+    rq_ext req' = (None, Some [116]) /\ rq_body req' = [1; 2; 3] /\ rq_version req' = 20 /\
+    map (poll_obs []) (rf_run sfut_poll (KFuture fut) 3) = [Nd [Nn 0]; Nd [Nn 0]; Nd [Nn 3; Bs [101]]].
+Proof. do 2 eexists. vm_compute. repeat split; reflexivity. Qed.
+
+Example c12_example_sequence :
+  snd (snd (snd (svc_run (intercepted_service (interceptor_of ex_acts) (rec_svc 0 (inl [101])))
+                         (0, ([(0, []); (2, [33])], []))
+                         [SReady; SCall ex_req; SCall ex_req; SReady; SCall ex_req])))
+  = [LReady;
+     LCall (mkHttpReq (rq_method ex_req) (rq_uri ex_req) 20
+              (fold_left apply_op (a_ops (hd act_identity ex_acts)) (rq_headers ex_req)) (None, Some [116]) [1; 2; 3]);
+     LReady;
+     LCall (mkHttpReq (rq_method ex_req) (rq_uri ex_req) 20
+              (fold_left apply_op (a_ops (hd act_identity ex_acts)) (rq_headers ex_req)) (None, Some [116]) [1; 2; 3])].
+Proof. vm_compute. reflexivity. Qed.
+
+Example c12_example_changes_only_named :
+  let a := hd act_identity ex_acts in
+  a_reject a = None /\ a_fresh a = false /\
+  Forall (fun op => ~ op_names op hdr_content_type) (a_ops a) /\
+  hm_get_all (rq_headers ex_req) hdr_content_type = [[120]].
+Proof. repeat split; try reflexivity. repeat constructor; vm_compute; discriminate. Qed.
 
 Example c12_example_reject_premises :
-  let ex_req : http_request ext_t (list N) :=
-  mkHttpReq [80; 79; 83; 84] [47; 115; 47; 109] 20
-    [ ([116; 101], [116; 114; 97; 105; 108; 101; 114; 115]); ([120; 45; 97], [49]);
-      ([120; 45; 112; 45; 98; 105; 110], [65; 80; 56; 72]); ([120; 45; 97], [50]);
-      ([99; 111; 110; 116; 101; 110; 116; 45; 116; 121; 112; 101], [120]) ]
-    (Some 7, None) [1; 2; 3] in
-  let st := mkStatus 16 [110; 111; 32; 37] [] [([120; 45; 119], [104]); ([116; 101], [120])] in
-  let a := mkAction false [] None (Some st) in
-  interceptor_of a (mkReq (from_headers (rq_headers ex_req)) (rq_ext ex_req) tt) = inr st /\
-  well_formed st /\ utf8_valid (st_msg st) = true /\ hm_get_all (st_md st) hdr_grpc_status_details = [].
-Proof. repeat split; reflexivity. Qed.
+  interceptor_of ex_acts 1 (mkReq (from_headers (rq_headers ex_req)) (rq_ext ex_req) tt) = (inr ex_status, 2) /\
+  well_formed ex_status /\ N.of_nat (length (st_md ex_status)) + 4 <= HEADER_MAP_MAX_NAMES /\
+  utf8_valid (st_msg ex_status) = true /\ hm_get_all (st_md ex_status) hdr_grpc_status_details = [].
+Proof. repeat split; try reflexivity. vm_compute. discriminate. Qed.
+
+(* the Panic outcome is reachable: 24574 metadata names and a message make 24577 header names *)
+Example c12_example_over_capacity :
+  status_into_http (mkStatus 13 [109] [] (cap_md 24574)) = Panic /\
+  exists h, status_into_http (mkStatus 13 [] [] (cap_md 24574)) = Val h /\ names_count h = HEADER_MAP_MAX_NAMES.
+Proof. split; [vm_compute; reflexivity|]. eexists. split; [vm_compute; reflexivity|]. vm_compute. reflexivity. Qed.
 
 Print Assumptions c12_accept_preserves.
+Print Assumptions c12_service_trace.
 Print Assumptions c12_reject_vetoes.
 Print Assumptions c12_reject_status_recovered.
